@@ -29,7 +29,7 @@ pub(crate) struct IcmpDatagram {
     pub message: icmp_utils::Message,
 }
 
-#[derive(Debug, Clone)]
+#[derive(Clone)]
 pub(crate) struct TcpConnectionMeta {
     /// Address of a VPN client made the connection request
     pub client_address: IpAddr,
@@ -147,6 +147,19 @@ impl From<&downstream::UdpDatagramMeta> for UdpDatagramMeta {
             source: x.source,
             destination: x.destination,
         }
+    }
+}
+
+impl Debug for TcpConnectionMeta {
+    fn fmt(&self, f: &mut Formatter<'_>) -> std::fmt::Result {
+        // the authentication source carries the client's credentials
+        f.debug_struct("TcpConnectionMeta")
+            .field("client_address", &self.client_address)
+            .field("destination", &self.destination)
+            .field("auth", &self.auth.as_ref().map(|_| "scrubbed"))
+            .field("tls_domain", &self.tls_domain)
+            .field("user_agent", &self.user_agent)
+            .finish()
     }
 }
 
